@@ -160,7 +160,8 @@ C10preserved(e) == IsPrefix(Get(e.pre, "vary"), Get(e.final, "vary"))
 Config == /\ Ev("Config")
           /\ sem' = Trace[l].sem /\ pats' = PatsOf(Trace[l].sem)
           /\ UNCHANGED <<bad, known, block, failStatus, stats, pos>>
-Rejected == Ev("Rejected") /\ UNCHANGED <<sem, pats, bad, known, block, failStatus, stats, pos>>
+Rejected == /\ l <= Len(Trace) /\ Trace[l].ev \in {"Rejected", "Names"} /\ l' = l + 1
+            /\ UNCHANGED <<sem, pats, bad, known, block, failStatus, stats, pos>>
 Panic == Ev("Panic") /\ UNCHANGED <<sem, pats, bad, known, block, failStatus, stats, pos>>   \* C17's business
 BlockStart == /\ Ev("Block")
               /\ block' = IF Prop = "C09" /\ Trace[l].dbg THEN block ELSE <<>>   \* C09: the debug-on block is compared
